@@ -50,6 +50,11 @@ def stress_specs(rng):
           'There is a shift with id 1, with capacity 5.\nEvery nurse can work in exactly 1 shift.\n')
     for ph in ('greater than 3', 'less than 9'):
         out.append((AP + f'It is prohibited that the number of nurses that work in a shift with capacity {ph} is more than 2.\n', [], 'aggregate-parameter-comparison'))
+    # an aggregate as a bound of `between` (an aggregate compared with an aggregate and a number in one chain)
+    for bounds in ('the number of shift and 10', '1 and the number of shift'):
+        out.append(('A nurse is identified by an id.\nA shift is identified by an id.\nA nurse goes from 1 to 3.\nA shift goes from 1 to 2.\n'
+                    'Every nurse can work in exactly 1 shift.\n'
+                    f'It is prohibited that the number of nurses that work in shift S is between {bounds}, whenever there is a shift S.\n', ['S'], 'aggregate-between-aggregate'))
     # letter-initial concept names with digits or few consonants: the names invented from them must still be variables
     for nm in ('a1', 'e2e', 'io', 'b2', 'u9x'):
         out.append((f'A box is identified by an id.\nA{"n" if nm[0] in "aeiou" else ""} {nm} is identified by an id.\nA box goes from 1 to 2.\n'
@@ -133,7 +138,7 @@ def ground_external(program, timeout=45):
     return p.returncode == 0, [('msg', p.stdout)]
 
 
-STRESS = ('arith', 'two-tel', 'strings', 'constants', 'head-', 'equal-', 'prefixed-and', 'aggregate-where', 'prefix-on', 'names-with', 'aggregate-parameter')
+STRESS = ('arith', 'two-tel', 'strings', 'constants', 'head-', 'equal-', 'prefixed-and', 'aggregate-where', 'prefix-on', 'names-with', 'aggregate-parameter', 'aggregate-between')
 
 
 def _job(args):
